@@ -598,6 +598,12 @@ class ContactlessFrontend(object):
         except KeyboardInterrupt:
             log.debug("terminated by keyboard interrupt")
             return False
+        except SystemExit:
+            # The llcp run loop terminates the link and raises SystemExit
+            # when it meets an input/output or security error. That must
+            # end connect() like an IOError, not the calling thread.
+            log.error("llcp link terminated by an error in the run loop")
+            return False
 
     def _rdwr_connect(self, options, terminate):
         target = self.sense(*options['targets'],
